@@ -7,8 +7,9 @@ use std::collections::BTreeMap;
 use std::sync::{Arc, Mutex};
 
 #[derive(Clone, Copy, Debug)]
-enum Op { Add(&'static [u16]), Remove(u16), SetKb, SetDisp, Mmap(u16, bool), Munmap(u16), Read(u16), Write(u16) }
-const OPS: [Op; 32] = [
+enum Op { /** scale: 300 attach/remove rounds of a device on a free port (ids are never reused, so later ids pass 2^8) */ Churn, Add(&'static [u16]), Remove(u16), SetKb, SetDisp, Mmap(u16, bool), Munmap(u16), Read(u16), Write(u16) }
+const OPS: [Op; 33] = [
+    Op::Churn,
     Op::Add(&[0xFE10]), Op::Add(&[0xFE12]), Op::Add(&[0xFE10, 0xFE12]), Op::Add(&[0xFE00]), Op::Add(&[0x3000]), Op::Add(&[]), Op::Add(&[0xFE12, 0xFE12]), Op::Add(&[0xFE14, 0xFE06]),
     Op::Remove(0), Op::Remove(1), Op::Remove(2), Op::Remove(3), Op::Remove(4), Op::Remove(5),
     Op::SetKb, Op::SetDisp,
@@ -75,6 +76,18 @@ fn apply(w: &mut World, op: Op) -> Result<(), (String, String)> {
                 (true, false) => return Err(("add-accepts".into(), format!("{what}: add_device succeeded though a port is not I/O or already owned (owners {:x?})", w.model.owner))),
                 (false, true) => return Err(("add-rejects".into(), format!("{what}: add_device failed though every port is a free I/O port (owners {:x?})", w.model.owner))),
             }
+            expect_calls = vec![];
+        }
+        Op::Churn => {
+            for _ in 0..300 {
+                let exp_id = w.model.devs.len() as u16;
+                match w.sim.device_handler.add_device(Rec { tag, log: w.log.clone() }, &[0xFE60]) {
+                    Ok(id) if id == exp_id => { w.model.devs.push(None); w.sim.device_handler.remove_device(id); }
+                    Ok(id) => return Err(("device-id".into(), format!("{what}: returned id {id}, expected {exp_id} (ids are never reused)"))),
+                    Err(_) => return Err(("add-rejects".into(), format!("{what}: add_device on the free port xFE60 failed at id {exp_id}"))),
+                }
+            }
+            w.next_tag += 1;
             expect_calls = vec![];
         }
         Op::Remove(id) => {
